@@ -32,7 +32,8 @@ use std::time::{Duration, Instant};
 pub const PARENT_EVENTS: &[&str] = &["a", "b", "c", "a.b", "d.e", "x"];
 const CHILD_POKES: &[&str] = &["poke", "poke", "fin", "finmsg"];
 
-/// the child document: answers pokes, reports forwarded parent events, ends on
+/// the child document (its final state says `k.bye` to the parent from its `onexit`, which must
+/// still arrive before `done.invoke`): answers pokes, reports forwarded parent events, ends on
 /// `fin` / `finmsg` (the latter with a last message)
 pub fn child_xml() -> String {
     "<scxml xmlns=\"http://www.w3.org/2005/07/scxml\" version=\"1.0\" datamodel=\"rfsm-expression\" name=\"child\" initial=\"run\">\
@@ -41,7 +42,7 @@ pub fn child_xml() -> String {
      <transition event=\"fin\" target=\"done\"/>\
      <transition event=\"finmsg\" target=\"done\"><send event=\"k.last\" target=\"#_parent\"/></transition>\
      <transition event=\"a b c d x\"><send event=\"k.fwd\" target=\"#_parent\"/></transition>\
-     </state><final id=\"done\"/></scxml>"
+     </state><final id=\"done\"><onexit><send event=\"k.bye\" target=\"#_parent\"/></onexit></final></scxml>"
         .to_string()
 }
 
@@ -120,7 +121,15 @@ pub fn decorate(d: &mut GDoc, p: &mut Prng) -> usize {
                 } else {
                     None
                 };
-                s.invokes.push(GInvoke { id: format!("c{}", n_inv), autoforward: next(3) == 0, finalize: fin, child_xml: child_xml() });
+                // namelist: declared variables (the child declares none of them: nothing is passed), or
+                // an undeclared one — the invoke is then abandoned with error.execution
+                let namelist = match next(8) {
+                    0 => Some("nosuchvar".to_string()),
+                    1 => Some("v0 nosuchvar".to_string()),
+                    2 | 3 => Some("v0 v1".to_string()),
+                    _ => None,
+                };
+                s.invokes.push(GInvoke { id: format!("c{}", n_inv), autoforward: next(3) == 0, finalize: fin, child_xml: child_xml(), namelist });
             }
             // transitions on child events
             let nt = next(3);
@@ -315,6 +324,10 @@ pub fn run_impl(c: &Case14) -> Result<Run14, String> {
         while s.elapsed() < max && !handle.is_finished() {
             std::thread::sleep(Duration::from_micros(150));
             let m = len(&log);
+            if m > 60_000 {
+                // runaway macrostep: no point in waiting for quiescence
+                return false;
+            }
             if m != n {
                 n = m;
                 since = Instant::now();
@@ -364,7 +377,7 @@ pub fn run_impl(c: &Case14) -> Result<Run14, String> {
         }
     }
     // let everything in flight arrive, then cancel the parent
-    let quiet = if executor_stuck { false } else { wait_quiet(Duration::from_millis(15), Duration::from_secs(8)) };
+    let quiet = if executor_stuck { false } else { wait_quiet(Duration::from_millis(25), Duration::from_secs(8)) };
     if !quiet && !handle.is_finished() {
         // is the executor's state mutex held for good?
         let w = Instant::now();
@@ -379,6 +392,30 @@ pub fn run_impl(c: &Case14) -> Result<Run14, String> {
         if !free {
             executor_stuck = true;
         }
+    }
+    // children that announced their last message are given time to finish (their done.invoke is then
+    // in the parent's queue before the cancel event): makes oracle O6b exact on a loaded machine
+    if !executor_stuck {
+        let w = Instant::now();
+        loop {
+            let lasts: Vec<u32> = {
+                let g = log.lock().unwrap_or_else(|e| e.into_inner());
+                g.iter()
+                    .filter_map(|l| l.strip_prefix("msg verif raw \"k.last\" "))
+                    .filter_map(|r| r.rsplit_once("#_scxml_").and_then(|x| x.1.trim_end_matches(|c| c == ')' || c == '"').parse::<u32>().ok()))
+                    .collect()
+            };
+            let kids = started_children(&log);
+            let child_logs: Vec<crate::obs::Log> = flogs.lock().unwrap().iter().skip(base).cloned().collect();
+            let pending = lasts.iter().any(|sid| {
+                kids.iter().position(|k| k.1 == *sid).map(|k| !child_logs.get(k).map(|l| l.lock().unwrap_or_else(|e| e.into_inner()).iter().any(|x| x == "m< interpret")).unwrap_or(true)).unwrap_or(false)
+            });
+            if !pending || w.elapsed() > Duration::from_secs(3) || handle.is_finished() {
+                break;
+            }
+            std::thread::sleep(Duration::from_millis(1));
+        }
+        wait_quiet(Duration::from_millis(15), Duration::from_secs(3));
     }
     if executor_stuck {
         crate::vdm::unregister_log(&vid);
@@ -520,7 +557,16 @@ pub fn events_of(trace: &[String]) -> Vec<Ev> {
 /// the replayed feed is not the real arrival pattern)
 pub fn impl_obs(evs: &[Ev]) -> Vec<String> {
     let mut o = vec![];
+    // the reads of an invoke's namelist (`dm loc …` right after the invoke line) are not part of
+    // the model's invoke outcome
+    let mut after_invoke = false;
     for e in evs {
+        match e {
+            Ev::Dm(t) if after_invoke && t.starts_with("loc ") => continue,
+            Ev::Invoke(..) => after_invoke = true,
+            Ev::Started(..) => {}
+            _ => after_invoke = false,
+        }
         match e {
             Ev::Enter(n) => o.push(format!("enter:{}", n)),
             Ev::Exit(n) => o.push(format!("exit:{}", n)),
@@ -708,38 +754,46 @@ pub fn judge(doc: &str, evs: &[Ev], children_alive: &[u32]) -> Judged {
                     insts[k].cancelled = true;
                 }
             }
-            Ev::Idle => {
-                // O1: exactly the invokes of the states entered in this macrostep and still active
-                let mut expected: Vec<(u32, u32)> = vec![];
-                let mut seen_states: Vec<u32> = vec![];
-                for s in &entered_since {
-                    if cfg.contains(s) && !seen_states.contains(s) {
-                        seen_states.push(*s);
-                        if let Some(v) = inv.get(s) {
-                            for x in v {
-                                expected.push((*s, x.doc_id));
+            // O1: at the end of every macrostep — the invocation phase is followed by the idle marker,
+            // or, when an invoke raised an error event, directly by the next macrostep's selection —
+            // exactly the invokes of the states entered in this macrostep and still active are attempted
+            Ev::Idle | Ev::Sel(_) | Ev::Int(_) => {
+                let at_idle = matches!(&evs[i], Ev::Idle);
+                if at_idle || !invoked_since.is_empty() {
+                    let mut expected: Vec<(u32, u32)> = vec![];
+                    let mut seen_states: Vec<u32> = vec![];
+                    for s in &entered_since {
+                        if cfg.contains(s) && !seen_states.contains(s) {
+                            seen_states.push(*s);
+                            if let Some(v) = inv.get(s) {
+                                for x in v {
+                                    expected.push((*s, x.doc_id));
+                                }
                             }
                         }
                     }
-                }
-                let mut a = expected.clone();
-                a.sort();
-                let mut b = invoked_since.clone();
-                b.sort();
-                if a != b {
-                    let kind = if b.len() > a.len() { "extra-invoke" } else if b.len() < a.len() { "missing-invoke" } else { "wrong-invoke" };
-                    fails.push((format!("C14:{}", kind), format!("end of macrostep: expected invocations {:?}, started {:?} (cfg {:?})", a, b, cfg)));
-                } else if !a.is_empty() {
-                    bump("macrosteps_with_invokes");
-                }
-                for s in &entered_since {
-                    if !cfg.contains(s) && inv.contains_key(s) {
-                        bump("invoking_state_entered_and_exited_within_macrostep");
+                    let mut a = expected.clone();
+                    a.sort();
+                    let mut b = invoked_since.clone();
+                    b.sort();
+                    if a != b {
+                        let kind = if b.len() > a.len() { "extra-invoke" } else if b.len() < a.len() { "missing-invoke" } else { "wrong-invoke" };
+                        fails.push((format!("C14:{}", kind), format!("end of macrostep: expected invocations {:?}, attempted {:?} (cfg {:?})", a, b, cfg)));
+                    } else if !a.is_empty() {
+                        bump("macrosteps_with_invokes");
+                        if !at_idle {
+                            bump("invocation_phase_followed_by_error_handling");
+                        }
                     }
+                    for s in &entered_since {
+                        if !cfg.contains(s) && inv.contains_key(s) {
+                            bump("invoking_state_entered_and_exited_within_macrostep");
+                        }
+                    }
+                    entered_since.clear();
+                    invoked_since.clear();
+                    exited_in_macro.clear();
                 }
-                entered_since.clear();
-                invoked_since.clear();
-                exited_in_macro.clear();
             }
             Ev::Raw { name, inv: rinv, origin } => {
                 // what happens to this raw event: dropped, or accepted (Ext follows)
@@ -1067,6 +1121,22 @@ pub fn corpus() -> Vec<Case14> {
             origin: "corpus parallel autoforward".to_string(),
             invokes: 3,
         },
+        // an invoke whose namelist cannot be evaluated, in a state that stays active: error.execution is
+        // handled before the next external event; neither invoke of the state is attempted again
+        Case14 {
+            xml: base(&format!(
+                "<state id=\"idle\"><transition event=\"a\" target=\"A\"/></state>\
+                 <state id=\"A\"><invoke type=\"scxml\" id=\"c1\" namelist=\"v0 nosuchvar\"><content>{}</content></invoke>{}\
+                   <transition event=\"error.execution\"><assign location=\"v1\" expr=\"v1 + 1\"/></transition>\
+                   <transition event=\"b c\"><assign location=\"v2\" expr=\"v2 + 1\"/></transition>\
+                   <transition event=\"x\" target=\"idle\"/></state>",
+                child_xml(),
+                inv("c2", false, false)
+            )),
+            acts: vec![p("a"), p("b"), Act::WaitIdle, p("c"), Act::WaitIdle, ch(0, "poke"), Act::WaitIdle, p("x"), Act::WaitIdle, p("a"), p("c"), Act::WaitIdle],
+            origin: "corpus invoke argument error".to_string(),
+            invokes: 2,
+        },
         // child finishes at the moment its invoking state is left (done.invoke races with cancel)
         Case14 {
             xml: base(&format!(
@@ -1104,11 +1174,13 @@ pub fn run(args: &Args, model: &mut Model) -> Report {
         return rep;
     }
     for c in corpus() {
-        for _ in 0..(if args.thorough { 20 } else { 4 }) {
+        for _ in 0..(if args.thorough { 20 } else if args.extra.iter().any(|a| a == "--few") { 1 } else { 4 }) {
             check_case(&c, model, &mut rep);
         }
     }
-    let n = if args.thorough { 4000 } else if std::env::var("VH_FEW").is_ok() { 20 } else { 200 };
+    // `--few`: the family as a supporting run of another property's check (C03, C13)
+    let few = args.extra.iter().any(|a| a == "--few");
+    let n = if args.thorough { 4000 } else if std::env::var("VH_FEW").is_ok() { 20 } else if few { 70 } else { 200 };
     for i in 0..n {
         let c = gen_case(args.seed, i);
         rep.count(&format!("doc_invokes_{}", c.invokes.min(4)));
@@ -1123,7 +1195,7 @@ pub fn run(args: &Args, model: &mut Model) -> Report {
 /// fixed scenarios on rfsm-expression and ECMAScript parents
 pub fn run_real(_args: &Args, rep: &mut Report, only: Option<&Value>) {
     for dm in ["rfsm-expression", "ecmascript"] {
-        for sc in ["params-only-declared", "event-invokeid-and-finalize"] {
+        for sc in ["params-only-declared", "event-invokeid-and-finalize", "invoke-argument-error"] {
             if let Some(v) = only {
                 if v["scenario"].as_str() != Some(sc) || v["datamodel"].as_str() != Some(dm) {
                     continue;
@@ -1132,7 +1204,8 @@ pub fn run_real(_args: &Args, rep: &mut Report, only: Option<&Value>) {
             rep.evaluations += 1;
             rep.count(&format!("real_{}_{}", sc, dm));
             let (xml, expect): (String, Vec<(&str, String)>) = real_scenario(sc, dm);
-            let marks = match run_marks(&xml) {
+            let wait_for: Vec<String> = expect.iter().filter(|(_, w)| !w.starts_with('!') && !w.starts_with('#')).map(|(_, w)| w.clone()).collect();
+            let marks = match run_marks(&xml, &wait_for) {
                 Ok(m) => m,
                 Err(e) => {
                     rep.oracle_fail(&format!("C14:{}:{}:run-failed", sc, dm), json!({"scenario": sc, "datamodel": dm, "xml": xml, "error": e}));
@@ -1177,6 +1250,29 @@ fn real_scenario(sc: &str, dm: &str) -> (String, Vec<(&'static str, String)>) {
             );
             (xml, vec![("declared-values-not-passed", "vals|10|20|3".to_string()), ("undeclared-data-created", "!undeclared-created".to_string())])
         }
+        // an <invoke> whose argument evaluation fails (undeclared namelist entry) in a state that stays
+        // active: error.execution is handled before the next external event, and the invoke is
+        // not attempted again at the end of later macrosteps
+        "invoke-argument-error" => {
+            let child = format!(
+                "<scxml xmlns=\"http://www.w3.org/2005/07/scxml\" version=\"1.0\" datamodel=\"{dm}\" name=\"child\" initial=\"r\"><state id=\"r\"/></scxml>",
+                dm = dm
+            );
+            let xml = format!(
+                "{head}<datamodel><data id=\"n\" expr=\"0\"/></datamodel>\
+                 <state id=\"s0\"><onentry><send event=\"e1\"/><send event=\"e2\"/></onentry>\
+                   <invoke type=\"scxml\" id=\"c1\" namelist=\"nosuchvar\"><content>{child}</content></invoke>\
+                   <invoke type=\"scxml\" id=\"c2\"><content>{child}</content></invoke>\
+                   <transition event=\"error.execution\"><assign location=\"n\" expr=\"n + 1\"/><script>mark('error-handled', n)</script></transition>\
+                   <transition event=\"e1\"><script>mark('e1-after-errors', n)</script></transition>\
+                   <transition event=\"e2\"><script>mark('e2-after-errors', n)</script></transition>\
+                 </state></scxml>",
+                head = head(dm),
+                child = child
+            );
+            // one error event (one failing invoke, attempted once), handled before e1; nothing new later
+            (xml, vec![("error-not-handled-before-next-event", "e1-after-errors|1".to_string()), ("invoke-attempted-again", "e2-after-errors|1".to_string()), ("invoke-attempts", "#invoke=2".to_string())])
+        }
         // _event.invokeid in the parent, finalize (updates v from the event data) before the guard is evaluated
         _ => {
             let child = format!(
@@ -1198,7 +1294,9 @@ fn real_scenario(sc: &str, dm: &str) -> (String, Vec<(&'static str, String)>) {
     }
 }
 
-fn run_marks(xml: &str) -> Result<Vec<String>, String> {
+/// runs the document; waits (up to 6 s) until every mark of `wait_for` was seen and the session is
+/// blocked and quiet, then cancels it (a loaded machine may start the children late)
+fn run_marks(xml: &str, wait_for: &[String]) -> Result<Vec<String>, String> {
     let mut fsm = parse(xml)?;
     let (tracer, log) = RecTracer::new(true);
     fsm.tracer = Box::new(tracer);
@@ -1215,7 +1313,7 @@ fn run_marks(xml: &str) -> Result<Vec<String>, String> {
         if g.len() != n {
             n = g.len();
             since = Instant::now();
-        } else if since.elapsed() > Duration::from_millis(40) && {
+        } else if since.elapsed() > Duration::from_millis(60) && wait_for.iter().all(|w| g.iter().any(|l| l.strip_prefix("mark ").map(|r| r.split(" cfg=").next().unwrap_or("") == w).unwrap_or(false))) && {
             let mut blocked = false;
             for l in g.iter().rev() {
                 if l == "m< externalQueue.dequeue" {
@@ -1243,5 +1341,8 @@ fn run_marks(xml: &str) -> Result<Vec<String>, String> {
         return Err("parent session thread panicked".to_string());
     }
     let g = log.lock().unwrap_or_else(|e| e.into_inner());
-    Ok(g.iter().filter_map(|l| l.strip_prefix("mark ").map(|r| r.split(" cfg=").next().unwrap_or("").to_string())).collect())
+    let mut m: Vec<String> = g.iter().filter_map(|l| l.strip_prefix("mark ").map(|r| r.split(" cfg=").next().unwrap_or("").to_string())).collect();
+    // number of invocation attempts (hook line), as a pseudo mark
+    m.push(format!("#invoke={}", g.iter().filter(|l| l.starts_with("msg verif invoke ")).count()));
+    Ok(m)
 }
